@@ -177,21 +177,23 @@ def histories(tier, seed):
     return sorted(set(hs))
 
 
-PROGS_Q = ['x*x', 'sin(x)*x', 'x/(1+x*x)', 'sum(x*exp(x)/(1+x0*x1)+sin(x)*x[::-1])', 'tan(x)*x', 'buffer', 'buffer-overwrite', 'exp(dot)']
+PROGS_Q = ['lu(2x2)', 'x*x', 'sin(x)*x', 'x/(1+x*x)', 'sum(x*exp(x)/(1+x0*x1)+sin(x)*x[::-1])', 'tan(x)*x', 'buffer', 'buffer-overwrite', 'exp(dot)']
 PROGS_T = PROGS_Q + ['x[1:]*x[:-1]', 'log(sum sq)', 'prod', 'x**3', 'outer', 'sqrt(x)*x[0]', 'expit', 'erf', 'x*x[::-1]']
 
 
 def units(tier, seed):
     out = []
-    opts = {'property': PROP, 'path_budget': 50}
+    opts = {'property': PROP, 'path_budget': 600, 'validate_paths': 2}
     hs = histories(tier, seed)
     progs = PROGS_Q if tier == 'quick' else PROGS_T
     rng = random.Random(7 + seed)
     for pn in progs:
-        if tier == 'quick':
+        if pn == 'lu(2x2)':
+            chosen = [('PB', 'PB'), ('F22', 'PB', 'PB'), ('PB', 'F11', 'PB'), ('F11', 'PB'), ('PB', 'OTHER', 'PB')]
+        elif tier == 'quick':
             chosen = [h for h in hs if len(h) <= 2][:: 2 if pn not in ('tan(x)*x', 'buffer-overwrite', 'buffer') else 1]
             chosen += [h for h in hs if len(h) > 2][:6] + [('F22', 'PB', 'PB')]
-        else:
+        elif True:
             chosen = hs if pn in PROGS_Q else [h for h in hs if len(h) <= 2] + rng.sample([h for h in hs if len(h) > 2], 30)
         for h in sorted(set(chosen)):
             out.append(Unit('C06/%s/%s' % (pn, '>'.join(h)), 'symx.props.c06', 'h_history', {'pname': pn, 'seq': list(h)}, dict(opts)))
